@@ -95,6 +95,11 @@ def ref_match(san, cn, host, cn_enabled):
 
 
 def _call(fn, cert, host, cn_enabled):
+    # every argument has been realised (solver-enumerated): the matcher runs outside the tracer on concrete values
+    from kit.net import _untraced
+    from crosshair.core import deep_realize
+    cn_enabled = deep_realize(cn_enabled) if not isinstance(cn_enabled, bool) else cn_enabled
+    fn = _untraced(fn)
     try:
         fn(cert, host, cn_enabled)
         return "accept", None
@@ -106,6 +111,7 @@ def _call(fn, cert, host, cn_enabled):
 
 def _dns_body(nl, h0, h1, h2, trailing_dot, entry, cn_enabled, cn_i, order):
     nl, h0, h1, h2, entry, cn_i = [concretize(v) for v in (nl, h0, h1, h2, entry, cn_i)]
+    trailing_dot, cn_enabled, order = [concretize(v) for v in (trailing_dot, cn_enabled, order)]
     labels = [HOST_LABELS[h0], HOST_LABELS[h1], HOST_LABELS[h2]][:nl]
     host = ".".join(labels) + ("." if trailing_dot else "")
     sans = P.sans
@@ -143,8 +149,9 @@ def _dns_body(nl, h0, h1, h2, trailing_dot, entry, cn_enabled, cn_i, order):
 
 def c08_dns(nl: int, h0: int, h1: int, h2: int, trailing_dot: bool, entry: int, cn_enabled: bool, cn_i: int, order: bool) -> bool:
     """
-    pre: 1 <= nl <= P.maxlabels and 0 <= h0 < len(HOST_LABELS) and 0 <= h1 < len(HOST_LABELS) and 0 <= h2 < len(HOST_LABELS)
-    pre: (nl >= 2 or h1 == 0) and (nl >= 3 or h2 == 0) and entry == 0 and cn_i in P.cns
+    pre: 1 <= nl <= P.maxlabels and h0 in P.hl and h1 in P.hl and h2 in P.hl
+    pre: P.multi or not order
+    pre: (nl >= 2 or h1 == P.hl[0]) and (nl >= 3 or h2 == P.hl[0]) and entry == 0 and cn_i in P.cns
     pre: (not trailing_dot) or P.dots
     post: _
     """
@@ -160,6 +167,7 @@ IP_SANS = ["1.2.3.4", "1.2.3.5", "::1", "0:0:0:0:0:0:0:1", "::A", "fe80::1", "1.
 
 def _ip_body(hi, si, with_dns, use_conn, cn_enabled):
     hi, si = concretize(hi), concretize(si)
+    with_dns, use_conn, cn_enabled = [concretize(v) for v in (with_dns, use_conn, cn_enabled)]
     host = IP_HOSTS[hi]
     sanv = IP_SANS[si]
     san = [("IP Address", sanv)]
@@ -236,8 +244,9 @@ def _pin_body(ci, di, op, i, c, n):
         pin = (other + other)[:L]
     norm = pin.replace(":", "").lower()
     want = len(norm) in (32, 40, 64) and norm == digests(cert)[{32: 0, 40: 1, 64: 2}[len(norm)]]
+    from kit.net import _untraced
     try:
-        assert_fingerprint(cert, pin)
+        _untraced(assert_fingerprint)(cert, pin)
         got = True
         err = None
     except SSLError as e:
@@ -254,7 +263,7 @@ def _pin_body(ci, di, op, i, c, n):
 
 def c08_pin(ci: int, di: int, op: int, i: int, c: int, n: int) -> bool:
     """
-    pre: 0 <= ci < len(CERTS) and 0 <= di <= 2 and op in P.ops and 0 <= i < 64 and 0 <= c < 16 and 0 <= n < 64
+    pre: 0 <= ci < len(CERTS) and 0 <= di <= 2 and op in P.ops and i in P.iis and c in P.cs and n in P.ns
     pre: (op in (1, 2, 3) or i == 0) and (op in (3, 5) or c == 0) and (op in (4, 5) or n == 0)
     post: _
     """
@@ -377,19 +386,21 @@ def JOBS(tier):
     for sl in san_lists:
         jobs.append({"func": "c08_dns", "timeout": t, "path_timeout": 60,
                      "part": {"sans": [list(x) for x in sl], "maxlabels": 2 if quick else 3, "dots": not quick,
+                              "multi": len(sl) > 1, "hl": [0, 1, 3, 4, 5, 6, 8] if quick else list(range(len(HOST_LABELS))),
                               "cns": [-1, 0, 1] if (not sl or sl[0][0] != "DNS") else [-1, 1]}})
     jobs.append({"func": "c08_ip", "timeout": t, "part": {}})
     for op in range(9):
-        jobs.append({"func": "c08_pin", "timeout": t, "part": {"ops": [op]}})
+        jobs.append({"func": "c08_pin", "timeout": t, "part": {
+            "ops": [op], "iis": [0, 1, 31, 32, 39, 40, 63] if quick else list(range(64)),
+            "cs": [0, 9, 15] if quick else list(range(16)), "ns": [0, 1, 31, 32, 33, 40, 63] if quick else list(range(64))}})
     return jobs
 
 
 EVIDENCE = {
     "bounds": {"quick": "E2: hostnames of any length for the 15 wildcard patterns of the pool x {host starts with xn-- or not}; E1: 27 SAN "
                         "lists (every pattern of the pool alone, pairs, IP+DNS, none, 3 entries, foreign kinds) x hostnames of 1-2 labels "
-                        "from an 11-label pool x entry order x commonName on/off and three commonName values; 15 IP host spellings x 9 "
-                        "IP SAN spellings x DNS decoys x both entry points; pins: 3 certificates x 3 digests x 9 edit operations with every "
-                        "position / hex digit / length",
+                        "from a 7-label pool (a, b, '', A, xn--a, XN--a, aab) x entry order x commonName on/off and three commonName values; 15 IP host spellings x 9 "
+                        "IP SAN spellings x DNS decoys x both entry points; pins: 3 certificates x 3 digests x 9 edit operations at 7 positions / 3 hex digits / 7 lengths (all of them in thorough)",
                "thorough": "hostnames of 1-3 labels, trailing dots"},
     "outside": ["labels outside the pool in E1 (E2 lemmas quantify over all hostnames)", "non-ASCII hostnames (EITHER)",
                 "OpenSSL's own matching (C07)"],
